@@ -73,6 +73,8 @@ def run(chk: Check, proj: Project) -> None:
 
     chk.borrow("S14", "every component class has its OWN hash (a subclass that inherits its parent's hash overwrites the parent's entry in comp_hash_mapping: a page that renders only the parent gets the subclass's files) (shared with C15-S5)",
                lambda sub: _C15.s5(sub, proj, w, proj.mod("component_registry")), only=lambda o: "own-hash" in o.construct)
+    chk.borrow("S16", "the default insertion points exist on every document: the end-tag scanner matches every syntactically valid </head> / </body> (whitespace before `>` included), so collected dependencies are never dropped for want of an insertion point (shared with C08-S8)",
+               lambda sub: C08.s8_reader_not_wider(sub, proj, proj.mod("dependencies")), only=lambda o: "matches-every-head-body-end-tag" in o.construct)
     chk.borrow("S11", "scripts cached during a render are still there when the page's dependencies are collected: the library's own cache backend has an effective 'no limit' configuration (shared with C19-S7)",
                lambda sub: C19.s7_own_backend(sub, proj))
 
